@@ -308,6 +308,12 @@ def case_fit(case):
         warnings.simplefilter("ignore")
         opt.optimize()
         result = opt.create_result()
+    # the parameter set handed to the scheme is the caller's: the fit works on its own copy
+    for p in params.all():
+        if float(p.value) != init[p.label][0] and not (math.isnan(float(p.value)) and math.isnan(init[p.label][0])):
+            vs.append(V("callers-parameter-changed-by-the-fit", label=p.label, before=init[p.label][0], after=float(p.value),
+                        expression=p.expression))  # fmt: skip
+            break
     free = [p.label for p in params.all() if p.vary and p.expression is None]
     if list(result.free_parameter_labels) != free:
         vs.append(V("free-parameter-labels-wrong", got=list(result.free_parameter_labels), want=free))
